@@ -129,6 +129,31 @@ class FifoChooser(Chooser):
         return {'strategy': 'fifo'}
 
 
+class LifoChooser(Chooser):
+    """Eager workers: always run the most recently started enabled thread (a
+    worker that has just been handed a task runs before its submitter goes
+    on), each until it blocks."""
+
+    def choose(self, sched, names, current):
+        return names[-1]
+
+    def describe(self):
+        return {'strategy': 'lifo'}
+
+
+class RoundRobinChooser(Chooser):
+    """Maximal interleaving: switch to the next enabled thread at every
+    scheduling point."""
+
+    def choose(self, sched, names, current):
+        if current in names:
+            return names[(names.index(current) + 1) % len(names)]
+        return names[0]
+
+    def describe(self):
+        return {'strategy': 'rr'}
+
+
 class ReplayChooser(Chooser):
     """Replays an explicit list of choices, then falls back."""
 
